@@ -16,27 +16,31 @@ import (
 
 type KnownFinding struct {
 	Property string `json:"property"`
-	Harness  string `json:"harness"`  // harness name ("" = any of the property)
-	Class    string `json:"class"`    // obligation class
-	IDHas    string `json:"id_has"`   // substring of the obligation id
-	PosHas   string `json:"pos_has"`  // substring of the position (file / function)
-	What     string `json:"what"`     // human description printed on the KNOWN-FINDING line
-	Status   string `json:"status"`   // "known" or "fixed: <commit> ..."
-	Witness  string `json:"witness"`  // an input/history that fails (documentation)
+	Harness  string `json:"harness"` // harness name ("" = any of the property)
+	Class    string `json:"class"`   // obligation class
+	IDHas    string `json:"id_has"`  // substring of the obligation id
+	PosHas   string `json:"pos_has"` // substring of the position (file / function)
+	What     string `json:"what"`    // human description printed on the KNOWN-FINDING line
+	Status   string `json:"status"`  // "known" or "fixed: <commit> ..."
+	Witness  string `json:"witness"` // an input/history that fails (documentation)
 }
 
 var tracesValidated int
 
 type verdict struct {
-	spec   HarnessSpec
-	res    *HarnessResult
-	viol   []ObResult
-	known  []string
-	incon  []string
-	passed int
-	covers int
+	spec    HarnessSpec
+	res     *HarnessResult
+	viol    []ObResult
+	known   []string
+	incon   []string
+	passed  int
+	covers  int
 	ignored int
+	// undecided: engine limits hit inside a symbolic-schedule window (reduces the explored bound only)
+	undecided []string
 }
+
+var windowsNotRun int
 
 func loadRegistry() ([]HarnessSpec, error) {
 	b, err := os.ReadFile(filepath.Join(harnessDir, "registry.json"))
@@ -158,8 +162,15 @@ func checkMain(args []string) int {
 		}(i, s)
 	}
 	wg.Wait()
-	// second phase: symbolic-schedule windows over the baseline runs (thorough tier, or quick_windows)
-	var extra []HarnessSpec
+	// second phase: symbolic-schedule windows over the baseline runs (thorough tier, or quick_windows).
+	// Windows are expensive (the rest of the run continues from a schedule-symbolic state), so the phase has a
+	// wall-clock budget: windows are taken in a fixed round-robin order over the scenarios (default policy
+	// first) until the budget is spent; what was not run is reported as outside the explored bound.
+	type winJob struct {
+		spec HarnessSpec
+		rank int
+	}
+	var jobsW []winJob
 	for i, v := range verdicts {
 		s := sel[i]
 		if s.Window <= 0 || v.res.Err != "" || v.res.NSteps == 0 {
@@ -171,6 +182,9 @@ func checkMain(args []string) int {
 		}
 		var starts []int
 		if *tier == "thorough" {
+			if s.Policy != "" {
+				continue // windows deviate from the default policy's run only
+			}
 			for a := 1; a < v.res.NSteps; a += stride {
 				starts = append(starts, a)
 			}
@@ -181,29 +195,56 @@ func checkMain(args []string) int {
 				}
 			}
 		}
-		for _, a := range starts {
+		for k, a := range starts {
 			w := s
 			w.SymFrom, w.SymTo = a, a+s.Window
 			w.Name = fmt.Sprintf("%s|win%d-%d", s.Name, a, a+s.Window)
 			w.Window = 0
-			extra = append(extra, w)
+			w.isWindow = true
+			if w.BudgetS == 0 {
+				w.BudgetS = 300
+			}
+			jobsW = append(jobsW, winJob{w, k})
 		}
 	}
-	if len(extra) > 0 {
-		more := make([]*verdict, len(extra))
-		for i, s := range extra {
+	sort.SliceStable(jobsW, func(i, j int) bool { return jobsW[i].rank < jobsW[j].rank })
+	if len(jobsW) > 0 {
+		budget := 1500
+		if *tier != "thorough" {
+			budget = 240
+		}
+		if b := os.Getenv("VERIF_WINDOW_BUDGET_S"); b != "" {
+			budget, _ = strconv.Atoi(b)
+		}
+		deadline := time.Now().Add(time.Duration(budget) * time.Second)
+		more := make([]*verdict, len(jobsW))
+		for i, j := range jobsW {
 			wg.Add(1)
 			go func(i int, s HarnessSpec) {
 				defer wg.Done()
 				sem <- struct{}{}
 				defer func() { <-sem }()
+				if time.Now().After(deadline) {
+					return
+				}
 				r := runHarness(l, s, false, "")
 				more[i] = judge(prop, s, r, known)
-			}(i, s)
+			}(i, j.spec)
 		}
 		wg.Wait()
-		verdicts = append(verdicts, more...)
-		sel = append(sel, extra...)
+		for i, v := range more {
+			if v == nil {
+				windowsNotRun++
+				continue
+			}
+			if len(v.viol) == 0 && len(v.incon) > 0 {
+				// an undecided window reduces the explored bound; it is not a verdict about the property
+				v.undecided = append(v.undecided, v.incon...)
+				v.incon = nil
+			}
+			verdicts = append(verdicts, v)
+			sel = append(sel, jobsW[i].spec)
+		}
 	}
 	exit := 0
 	knownPrinted := map[string]bool{}
@@ -436,6 +477,7 @@ func writeEvidence(prop, tier string, seed int, vs []*verdict, wall time.Duratio
 	var bounds []map[string]interface{}
 	var solveMs, execMs int64
 	var incon []string
+	var undecided []string
 	for _, v := range vs {
 		r := v.res
 		states += r.NBlocks + r.NSteps
@@ -453,7 +495,7 @@ func writeEvidence(prop, tier string, seed int, vs []*verdict, wall time.Duratio
 			assum[f] = true
 		}
 		bounds = append(bounds, map[string]interface{}{"harness": v.spec.Name, "facet": v.spec.Facet, "arithmetic": map[bool]string{true: "Int/Real (IEEE standard model)", false: "64-bit bit-vectors"}[v.spec.Int],
-			"loop_unwind": orDefault(v.spec.Unwind, 16), "max_moves": orDefault(v.spec.Steps, 64), "moves_used": r.NSteps, "schedule": map[bool]string{true: "solver variable per step", false: "first enabled move (harness is schedule-independent by construction)"}[v.spec.Symbolic],
+			"loop_unwind": orDefault(v.spec.Unwind, 16), "max_moves": orDefault(v.spec.Steps, 64), "moves_used": r.NSteps, "schedule": scheduleText(v.spec),
 			"inputs": r.Inputs})
 		for _, o := range r.Obs {
 			if o.Class == "batch" {
@@ -476,6 +518,9 @@ func writeEvidence(prop, tier string, seed int, vs []*verdict, wall time.Duratio
 		}
 		viol += len(v.viol)
 		incon = append(incon, v.incon...)
+		for _, u := range v.undecided {
+			undecided = append(undecided, v.spec.Name+": "+u)
+		}
 	}
 	if states == 0 {
 		states = 1
@@ -489,22 +534,24 @@ func writeEvidence(prop, tier string, seed int, vs []*verdict, wall time.Duratio
 	ev := map[string]interface{}{
 		"property_id": prop, "tier": tier, "seed": seed, "level": "model_checking", "wall_s": wall.Seconds(), "violations": viol,
 		"coverage": map[string]interface{}{
-			"states":      states,
-			"transitions": trans,
+			"states":                        states,
+			"transitions":                   trans,
 			"traces_validated_against_impl": tracesValidated,
-			"samples":                 samples,
-			"obligations":             nobl,
-			"discharged":              ndis,
-			"discharged_by_simplifier": ntriv,
-			"reachability_witnesses_sat": traces,
-			"functions_encoded":       keys(funcs),
-			"library_contracts":       keys(stubs),
-			"bounds":                  bounds,
-			"solver_ms":               solveMs,
-			"symbolic_execution_ms":   execMs,
-			"inconclusive":            incon,
-			"explanation":             "states = basic-block instances + scheduler steps encoded; transitions = SSA instructions + candidate moves encoded; every obligation is an SMT query (unsat = holds for all values within the stated bounds); reachability witnesses must be sat",
-			"exhaustive":              false,
+			"samples":                       samples,
+			"obligations":                   nobl,
+			"discharged":                    ndis,
+			"discharged_by_simplifier":      ntriv,
+			"reachability_witnesses_sat":    traces,
+			"functions_encoded":             keys(funcs),
+			"library_contracts":             keys(stubs),
+			"bounds":                        bounds,
+			"solver_ms":                     solveMs,
+			"symbolic_execution_ms":         execMs,
+			"inconclusive":                  incon,
+			"windows_undecided":             undecided,
+			"windows_not_run_budget":        windowsNotRun,
+			"explanation":                   "states = basic-block instances + scheduler steps encoded; transitions = SSA instructions + candidate moves encoded; every obligation is an SMT query (unsat = holds for all values within the stated bounds); reachability witnesses must be sat",
+			"exhaustive":                    false,
 		},
 		"assumptions": keys(assum),
 	}
@@ -513,6 +560,22 @@ func writeEvidence(prop, tier string, seed int, vs []*verdict, wall time.Duratio
 	}
 	b, _ := json.MarshalIndent(ev, "", " ")
 	os.WriteFile(filepath.Join("/verif/evidence", prop+".json"), b, 0o644)
+}
+
+func scheduleText(s HarnessSpec) string {
+	pol := s.Policy
+	if pol == "" {
+		pol = "default"
+	}
+	switch {
+	case s.SymFrom < s.SymTo:
+		return fmt.Sprintf("moves [%d,%d) chosen by one solver variable each (any enabled move); every other move by the fair deterministic policy %q", s.SymFrom, s.SymTo, pol)
+	case s.Symbolic:
+		return "solver variable per move"
+	case strings.HasPrefix(s.Func, "vs"):
+		return fmt.Sprintf("fair deterministic policy %q (one schedule); schedules outside the policies and windows are outside the claim", pol)
+	}
+	return "first enabled move (harness is schedule-independent by construction)"
 }
 
 func orDefault(v, d int) int {
